@@ -157,7 +157,7 @@ class PyFunc:
         return f"<py {self.name}>"
 
 
-_CONSUMERS = {"list", "tuple", "sorted", "sum", "min", "max", "set", "frozenset", "dict", "zip", "enumerate", "filter", "map",
+_CONSUMERS = {"list", "tuple", "sorted", "sum", "min", "max", "set", "frozenset", "dict", "enumerate", "filter", "map",
               "reduce", "Counter", "chain", "accumulate", "groupby", "starmap", "deque"}
 _NUMBER_CLASSES = {"Fraction": Fraction, "Number": __import__("numbers").Number, "Real": __import__("numbers").Real,
                    "Rational": __import__("numbers").Rational, "Integral": __import__("numbers").Integral,
@@ -239,7 +239,7 @@ class Interp:
             "max": PyFunc(lambda *a, **k: self._minmax(max, a, k), "max", True),
             "sum": PyFunc(self._sum, "sum", True), "int": ClassRef("int"), "float": ClassRef("float"), "str": ClassRef("str"),
             "bool": ClassRef("bool"), "complex": ClassRef("complex"),
-            "isinstance": PyFunc(self._isinstance, "isinstance", True), "zip": PyFunc(lambda *a: list(zip(*a)), "zip", True),
+            "isinstance": PyFunc(self._isinstance, "isinstance", True), "zip": PyFunc(self._zip, "zip", True),
             "enumerate": PyFunc(lambda a, start=0: list(enumerate(a, start)), "enumerate", True),
             "reversed": PyFunc(lambda a: list(reversed(a)), "reversed", True),
             "any": PyFunc(lambda seq: any(self.truth(x) for x in (_Consuming(seq) if isinstance(seq, GenList) else list(seq))), "any", True),
@@ -393,7 +393,7 @@ class Interp:
             "starmap": PyFunc(lambda f, q: [self.call(f, list(xs), {}) for xs in seq(q)], "starmap", True),
             "accumulate": PyFunc(accumulate, "accumulate", True),
             "zip_longest": PyFunc(zip_longest, "zip_longest", True),
-            "islice": PyFunc(lambda q, *a: list(_it.islice(seq(q), *a)), "islice", True),
+            "islice": PyFunc(lambda q, *a: list(_it.islice(_Consuming(q) if isinstance(q, GenList) else seq(q), *a)), "islice", True),
             "takewhile": PyFunc(lambda f, q: list(_it.takewhile(lambda x: self.truth(self.call(f, [x], {})), seq(q))), "takewhile", True),
             "dropwhile": PyFunc(lambda f, q: list(_it.dropwhile(lambda x: self.truth(self.call(f, [x], {})), seq(q))), "dropwhile", True),
             "filterfalse": PyFunc(lambda f, q: [x for x in seq(q) if not self.truth(self.call(f, [x], {}) if f is not None else x)], "filterfalse", True),
@@ -499,6 +499,21 @@ class Interp:
             return PyFunc(lambda g: (registry.append((cls, g)), g)[1], "register(cls)", True)
         return Obj("singledispatch", {"fmt": "<singledispatch>", "register": PyFunc(register, "register", True), "__wrapped__": f}, call=call)
 
+    def _ancestors(self, kind):
+        """Names of the base classes (transitively) of a class defined in the repository."""
+        out, todo = [], [kind]
+        while todo:
+            n = todo.pop()
+            for mod in self.repo.modules.values():
+                for st in mod.tree.body:
+                    if isinstance(st, ast.ClassDef) and st.name == n:
+                        for b in st.bases:
+                            bn = un(b).split(".")[-1]
+                            if bn not in out:
+                                out.append(bn)
+                                todo.append(bn)
+        return out
+
     def _exception_ancestors(self, name):
         """The class and its base classes by name: Python's own hierarchy for built-in exceptions, the `class X(Base)`
         statements of the repository for its own."""
@@ -586,6 +601,21 @@ class Interp:
         if names is None:
             return Unk("signature")
         return Obj("Signature", {"parameters": {n: Obj("Parameter", {"name": n, "fmt": n}) for n in names}, "fmt": f"({', '.join(names)})"})
+
+    def _zip(self, *seqs, **k):
+        """zip over lists and generator objects with Python's consumption: every generator object is advanced exactly as
+        far as zip advances it (the same object given twice is advanced twice per tuple)."""
+        iters = {}
+        its = []
+        for q in seqs:
+            q = self._iterable(q)
+            if isinstance(q, (Unk, T, Obj)):
+                raise NoValue("zip over an unknown iterable")
+            if isinstance(q, GenList):
+                its.append(iters.setdefault(id(q), _Consuming(q)))
+            else:
+                its.append(iter(list(q)))
+        return list(zip(*its))
 
     def _pow(self, a, b, *mod):
         if mod:
@@ -892,7 +922,7 @@ class Interp:
                     return True
                 continue
             if isinstance(v, Obj):
-                if v.kind == name:
+                if v.kind == name or name in self._ancestors(v.kind):
                     return True
                 continue
             if name == "Mapping":
@@ -1022,6 +1052,10 @@ class Interp:
                         fn = self._class_def(o.kind, name)
                         if isinstance(fn, ast.FunctionDef):
                             return self.call_function(fn, [o, other], {}, {}, self.instance_classes[o.kind].split(".")[0])
+                        if isinstance(fn, ast.Assign):          # e.g. __mul__ = partialmethod(binary_operator, operator='gp')
+                            bound = self._class_attribute(o, fn, name, self.instance_classes[o.kind].split(".")[0])
+                            if isinstance(bound, PyFunc):
+                                return self.call(bound, [other], {})
             return Unk("binop")
         if isinstance(op, ast.Div):
             try:
@@ -1176,7 +1210,13 @@ class Interp:
             if name == "__name__":
                 return getattr(v.node, "name", "<lambda>")
             return Unk(f"function.{name}")
+        if isinstance(v, ClassRef) and name in ("__name__", "__qualname__"):
+            return v.name
         if isinstance(v, ClassRef):
+            if v.name not in self.instance_classes and v.name not in _BUILTIN_TYPES:
+                for mname, mod in self.repo.modules.items():
+                    if any(isinstance(st, ast.ClassDef) and st.name == v.name for st in mod.tree.body) and self._namedtuple_fields(v.name) is None:
+                        self.instance_classes.setdefault(v.name, f"{mname}.{v.name}")
             if v.name in self.instance_classes:
                 d = self._class_def(v.name, name)
                 if isinstance(d, ast.FunctionDef):
@@ -1331,6 +1371,8 @@ class Interp:
         found = None
         for st in cls.body:
             if isinstance(st, ast.FunctionDef) and st.name == attr:
+                if any(un(d) in (f"{attr}.setter", f"{attr}.deleter") for d in st.decorator_list) and found is not None:
+                    continue            # the setter / deleter of a property defined above: reading still goes through the getter
                 found = st
             elif isinstance(st, ast.Assign) and any(isinstance(t, ast.Name) and t.id == attr for t in st.targets):
                 if isinstance(st.value, ast.Name):
@@ -1347,6 +1389,92 @@ class Interp:
                         break
         return found
 
+    def _super(self, env, node):
+        """Zero-argument super() inside a method: attribute look-up continues in the bases of the DEFINING class."""
+        scope = env
+        while scope is not None and getattr(scope, "fn", None) is None:
+            scope = getattr(scope, "comprehension_of", None)
+        fn = getattr(scope, "fn", None)
+        cls = getattr(fn, "_parent", None)
+        if not isinstance(fn, ast.FunctionDef) or not isinstance(cls, ast.ClassDef) or not fn.args.args:
+            raise NoValue("super() outside a method")
+        me = scope.local.get(fn.args.args[0].arg)
+        module = scope.module
+        bases = [un(b) for b in cls.bases]
+        interp = self
+
+        def getattr_(name):
+            for b in bases:
+                bq = f"{module}.{b.split('.')[-1]}"
+                if interp.repo.has(bq) and isinstance(interp.repo.lookup(bq), ast.ClassDef):
+                    d = interp._class_def_q(bq, name)
+                    if isinstance(d, ast.FunctionDef):
+                        decos = {un(x) for x in d.decorator_list}
+                        if decos & {"property", "cached_property", "functools.cached_property"}:
+                            return interp.call_function(d, [me], {}, {}, module)
+                        first = ClassRef(me.kind) if ("classmethod" in decos and isinstance(me, Obj)) else me
+                        return PyFunc(lambda *a, **k: interp.call_function(d, ([] if "staticmethod" in decos else [first]) + list(a), k, {}, module), f"super().{name}", True)
+            if name in ("__init__", "__init_subclass__", "__post_init__", "__setattr__") and all(
+                    not interp.repo.has(f"{module}.{b.split('.')[-1]}") for b in bases):
+                if name == "__setattr__":
+                    return PyFunc(lambda n, v: me.attrs.__setitem__(n, v), "object.__setattr__", True)
+                return PyFunc(lambda *a, **k: None, f"super().{name}", True)     # a base class outside the repository
+            if name == "__new__":
+                return PyFunc(lambda c, *a, **k: Obj(c.name if isinstance(c, ClassRef) else "object"), "object.__new__", True)
+            return Unk(f"super().{name}")
+        return Obj("super", {"fmt": "<super>"}, {"__getattr__": getattr_})
+
+    def _class_attribute(self, inst, st, name, module):
+        """`name = <expr>` in a class body: a partialmethod is bound to the instance, anything else is evaluated once per
+        interpreter (a mutable class attribute is ONE object shared by all instances)."""
+        v = st.value
+        if isinstance(v, ast.Call) and un(v.func).split(".")[-1] == "partialmethod" and v.args and isinstance(v.args[0], ast.Name):
+            target = self._class_def(inst.kind, v.args[0].id) if isinstance(inst, Obj) else None
+            if isinstance(target, ast.FunctionDef):
+                env = Env({}, {}, module, self)
+                bargs = [self.eval(a, env) for a in v.args[1:]]
+                bkw = {k.arg: self.eval(k.value, env) for k in v.keywords if k.arg}
+                return PyFunc(lambda *a, **k: self.call_function(target, [inst] + bargs + list(a), {**bkw, **k}, {}, module), f"{inst.kind}.{name}", True)
+            return NotImplemented
+        if isinstance(v, ast.Call) and un(v.func).split(".")[-1] in ("field", "Instance", "List", "Dict", "Unicode", "Int", "Float", "Bool", "Any"):
+            return NotImplemented                           # dataclass / traitlets declarations are not plain values
+        key = ("class-attr", id(st))
+        if key not in self.module_state:
+            try:
+                self.module_state[key] = self.eval(v, Env({}, {}, module, self))
+            except NoValue:
+                return NotImplemented
+            self._keepalive.append(st)
+        return self.module_state[key]
+
+    def _property_setter(self, kind, attr):
+        qual = self.instance_classes.get(kind)
+        seen = 0
+        while qual and seen < 5:
+            cls = self.repo.cls(qual)
+            for st in cls.body:
+                if isinstance(st, ast.FunctionDef) and st.name == attr and any(un(d) == f"{attr}.setter" for d in st.decorator_list):
+                    return st, qual.split(".")[0]
+            nxt = None
+            for b in cls.bases:
+                bq = f"{qual.split('.')[0]}.{un(b)}"
+                if self.repo.has(bq) and isinstance(self.repo.lookup(bq), ast.ClassDef):
+                    nxt = bq
+                    break
+            qual, seen = nxt, seen + 1
+        return None, None
+
+    def _is_frozen_dataclass(self, kind):
+        qual = self.instance_classes.get(kind)
+        if not qual:
+            return False
+        for d in self.repo.cls(qual).decorator_list:
+            if isinstance(d, ast.Call) and un(d.func).split(".")[-1] == "dataclass":
+                for kw in d.keywords:
+                    if kw.arg == "frozen" and isinstance(kw.value, ast.Constant) and kw.value.value is True:
+                        return True
+        return False
+
     def _instance_attr(self, v, name, node=None):
         d = self._class_def(v.kind, name)
         module = self.instance_classes[v.kind].split(".")[0]
@@ -1359,6 +1487,10 @@ class Interp:
             if "staticmethod" in decos:
                 return PyFunc(lambda *a, **k: self.call_function(d, list(a), k, {}, module), name, True)
             return PyFunc(lambda *a, **k: self.call_function(d, [v] + list(a), k, {}, module), f"{v.kind}.{name}", True)
+        if isinstance(d, ast.Assign):
+            got = self._class_attribute(v, d, name, module)
+            if got is not NotImplemented:
+                return got
         if d is not None:
             return Unk(f"{v.kind}.{name}")
         ga = self._class_def(v.kind, "__getattr__")
@@ -1550,6 +1682,7 @@ class Interp:
             elif a.kwarg:
                 env[a.kwarg.arg] = {}
             e = Env(env, closure_env, module, self)
+            e.fn = fn
             if isinstance(fn, ast.Lambda):
                 return self.eval(fn.body, e)
             is_gen = any(isinstance(n, (ast.Yield, ast.YieldFrom)) for n in _walk_shallow_body(fn))
@@ -1778,6 +1911,13 @@ class Interp:
                     raise Raised("TypeError", target)
         elif isinstance(target, ast.Attribute):
             base = self.eval(target.value, env)
+            if isinstance(base, Obj) and base.kind in self.instance_classes:
+                setter, smod = self._property_setter(base.kind, target.attr)
+                if setter is not None:
+                    self.call_function(setter, [base, value], {}, {}, smod)
+                    return
+                if self._is_frozen_dataclass(base.kind) and not getattr(env, "in_init_of", None) is base:
+                    raise Raised("FrozenInstanceError", target)
             if isinstance(base, Obj):
                 base.attrs[target.attr] = value
             elif isinstance(base, T):
@@ -1796,6 +1936,9 @@ class Interp:
             return env.lookup(node.id)
         if isinstance(node, ast.Attribute):
             return self.getattr_value(self.eval(node.value, env), node.attr, node)
+        if isinstance(node, ast.Call) and isinstance(node.func, ast.Name) and node.func.id == "super" and not node.args \
+                and "super" not in env.local:
+            return self._super(env, node)
         if isinstance(node, ast.Call):
             f = self.eval(node.func, env)
             args = []
@@ -2033,6 +2176,12 @@ class Interp:
         except (IndexError,):
             raise Raised("IndexError", node)
         except KeyError:
+            def value_keyed(k):
+                return (isinstance(k, Obj) and k.kind in self.instance_classes and k.kind != "token") or \
+                    (isinstance(k, tuple) and any(value_keyed(x) for x in k))
+            if value_keyed(idx) or (isinstance(base, dict) and any(value_keyed(k) for k in base)):
+                # the stand-ins hash by identity; the class may define value equality: not a KeyError of the program
+                raise NoValue("dictionary look-up with an object of a repository class as key")
             raise Raised("KeyError", node)
         except TypeError:
             raise Raised("TypeError", node)
@@ -2106,6 +2255,7 @@ class Env:
         return _Live(self)
 
     yielded = None
+    fn = None
     nonlocals: frozenset = frozenset()
     globals_: frozenset = frozenset()
     comprehension_of = None
